@@ -101,4 +101,6 @@ class CheckECKeySmallDifference:
                     "assert [C02] result[_i1] is not None and args[2] == result[_i1]", "g_attached = True"]}
   return_hints = list(RET)
   total = True
+  # the only exception left open: BatchInverse's internal self-check, reached through BatchDLOfDifferences -> PointTable
+  raises = {"ArithmeticError": None}
   props = ["C02", "C10", "C16", "C17", "C18"]
